@@ -33,6 +33,10 @@ def tier_config(prop, tier):
     return {"budget_s": 1200, "chunk": 8, "cap_s": 600, "det_seeds": 32, "shrink_budget": 120, "grace_s": 1500}
 
 
+def const1(x, a):
+    return a
+
+
 def logi2(x, a, b):
     return a + b / (1 + np.exp(-np.asarray(x, dtype=float) / 3.0))
 
@@ -78,12 +82,18 @@ def _gen_slot(S, tier):
         fam = S.pick(list(FAM))
         p = _gen_params(S, fam, wide=False)
         d = {"family": fam, "cond_on": cond[i], "params": p}
+        if cond[i] is None and i > 0 and dims and dims[0]["cond_on"] is None and S.chance(0.12):
+            # the very same distribution *object* describes two dimensions (i.i.d. variables)
+            d = {"family": dims[0]["family"], "cond_on": None, "params": dims[0]["params"], "same_object_as": 0}
         if cond[i] is not None:
             # every parameter a bounded, positive-where-needed function of the conditioning value
             d["deps"] = {}
+            const = S.chance(0.1)  # dependence functions that return a scalar whatever the conditioning values are
             for k, v in p.items():
                 amp = core.r6(S.uni(0.1, 0.8) * abs(v) if v != 0 else S.uni(0.1, 0.5))
                 d["deps"][k] = [v, amp]
+            if const:
+                d["const_deps"] = True
         dims.append(d)
     return {"kind": "model", "dims": dims}
 
@@ -101,7 +111,7 @@ def generate(prop, seed, tier):
         if S.chance(0.15):
             ops.append({"op": "skew", "k": S.sub("skew", k), "k2": S.sub("skew2", k)})
             continue
-        n = S.wpick([(1, 1), (2, 1), (3, 1), (10, 1), (1000, 2), (2000, 1), (20000, 3), (100000, 2 if big_used < 2 else 0.2)] + ([(1000000, 0.15)] if tier == "thorough" and big_used == 0 else []))
+        n = S.wpick([(1, 1), (2, 1), (3, 1), (10, 1), (1000, 2), (2000, 1), (2503, 0.5), (20000, 3), (20011, 0.5), (100000, 2 if big_used < 2 else 0.2), (100003, 0.3 if big_used < 2 else 0.05), (333333, 0.25 if big_used < 1 else 0.02)] + ([(1000000, 0.15), (612345, 0.15)] if tier == "thorough" and big_used == 0 else []))
         if n >= 100000:
             big_used += 1
         rs = S.wpick([({"kind": "none", "pin": S.sub("pin", k)}, 3), ({"kind": "int", "seed": S.pick([0, 1, 42, S.sub("s", k) % 1000, S.sub("s", k), 2**32 + S.sub("s", k) % 1000, 2**63 + 5]), "type": S.wpick([("int", 4), ("np.int64", 1), ("np.uint32", 0.5)])}, 4), ({"kind": "gen", "gen": S.int(0, n_gens - 1)}, 4)])
@@ -178,7 +188,9 @@ def build_slot(sl):
     descs = []
     for d in sl["dims"]:
         cls = fam_class(d["family"])
-        if d["cond_on"] is None:
+        if d.get("same_object_as") is not None:
+            descs.append({"distribution": descs[d["same_object_as"]]["distribution"]})
+        elif d["cond_on"] is None:
             descs.append({"distribution": cls(**d["params"])})
         else:
             from engines.fit_c14 import make_func  # noqa: F401
@@ -186,7 +198,10 @@ def build_slot(sl):
 
             pars = {}
             for k, (a, b) in d["deps"].items():
-                f = types.FunctionType(logi2.__code__, logi2.__globals__, "logi2", (a, b))
+                if d.get("const_deps"):
+                    f = types.FunctionType(const1.__code__, const1.__globals__, "const1", (a,))
+                else:
+                    f = types.FunctionType(logi2.__code__, logi2.__globals__, "logi2", (a, b))
                 pars[k] = DependenceFunction(f)
             descs.append({"distribution": cls(), "conditional_on": d["cond_on"], "parameters": pars})
     return GlobalHierarchicalModel(descs)
